@@ -3989,6 +3989,7 @@ class Wallet(object):
                 transaction.locktime = blockcount
 
         transaction.fee_per_kb = None
+        named_fee = False
         if isinstance(fee, int):
             fee_estimate = fee
         else:
@@ -4004,6 +4005,7 @@ class Wallet(object):
                 fee_estimate = 0
             if isinstance(fee, str):
                 fee = fee_estimate
+                named_fee = True
 
         # Add inputs
         sequence = 0xffffffff
@@ -4105,9 +4107,12 @@ class Wallet(object):
                                       sequence=sequence, locktime_cltv=locktime_cltv, locktime_csv=locktime_csv,
                                       witness_type=witness_type, key_path=key.path)
         # Calculate fees
+        transaction.size = transaction.estimate_size(number_of_change_outputs=number_of_change_outputs)
+        if named_fee:
+            # A fee asked for by name is the provider's rate for the transaction with the inputs it has now
+            fee = int(transaction.size / 1000.0 * transaction.fee_per_kb)
         transaction.fee = fee
         fee_per_output = None
-        transaction.size = transaction.estimate_size(number_of_change_outputs=number_of_change_outputs)
         if fee is None:
             if not input_arr:
                 if not transaction.fee_per_kb:
@@ -4155,6 +4160,11 @@ class Wallet(object):
                     if number_of_change_outputs == 3:
                         number_of_change_outputs = random.randint(3, 4)
                 transaction.size = transaction.estimate_size(number_of_change_outputs=number_of_change_outputs)
+                if named_fee:
+                    fee_diff = int(transaction.size / 1000.0 * transaction.fee_per_kb) - transaction.fee
+                    if 0 < fee_diff < transaction.change:
+                        transaction.fee += fee_diff
+                        transaction.change -= fee_diff
 
             average_change = transaction.change // number_of_change_outputs
             if number_of_change_outputs > 1 and average_change < min_output_value:
